@@ -103,7 +103,7 @@ theorem has_create (e : Env) (s : Svc) (k : String) (hk : s.keys.contains k = tr
   refine ⟨hk, ?_, ?_⟩ <;> simp [Svc.create, Svc.nextName]
 
 theorem ver_create_next (e : Env) (s : Svc) (k : String) :
-    (s.create e k).ver (s.nextName k) = ⟨.pending e.gen, s.next⟩ := by
+    (s.create e k).ver (s.nextName k) = ⟨e.createdSt, s.next⟩ := by
   simp [Svc.create, Svc.nextName]
 
 theorem Prog_addKey (e : Env) (s : Svc) (k : String) (hk : s.keys.contains k = false) : Prog s (s.addKey e k) := by
@@ -221,6 +221,22 @@ theorem scanFrom_spec (st : Nat → VSt) (todo i : Nat) (pend : Option Nat) :
         · exact Or.inl e
         · right; omega
 
+/-- bootstrap.go's shortcut on the response of CreateCryptoKeyVersion changes nothing as long as the response
+    reports the state the version is in: polling a version that is ENABLED returns at once -/
+theorem createAndWait_eq (e : Env) (s : Svc) (k : String) (hk : s.keys.contains k = true) :
+    createAndWait e s k =
+      ((waitGen e (s.create e k) (s.nextName k)).1,
+       if (waitGen e (s.create e k) (s.nextName k)).2 then some (s.nextName k) else none) := by
+  unfold createAndWait
+  by_cases hc : e.createdSt = .enabled
+  · rw [if_pos hc]
+    have hw : waitGen e (s.create e k) (s.nextName k) = (s.create e k, true) := by
+      unfold waitGen
+      rw [ver?_of_has (has_create e s k hk), ver_create_next, hc]
+    rw [hw]
+    rfl
+  · rw [if_neg hc]
+
 /-- What a key-creating step of bootstrap returns: the service only moved forward, and a returned name is an
     existing ENABLED version of the requested cryptoKey. -/
 def KeyStepOK (k : String) (s : Svc) (r : Svc × Option KName) : Prop :=
@@ -252,6 +268,7 @@ theorem waitForKeyGen_spec (e : Env) (s : Svc) (k : String) : KeyStepOK k s (wai
         · simp [hw] at h
       | none =>
         simp only []
+        rw [createAndWait_eq e s k hk]
         obtain ⟨w1, w2, _⟩ := waitGen_spec e (s.create e k) (s.nextName k)
         refine ⟨(Prog_create e s k).trans w1, fun n h => ?_⟩
         by_cases hw : (waitGen e (s.create e k) (s.nextName k)).2 = true
@@ -1176,7 +1193,14 @@ theorem waitForKeyGen_noDeadline {e : Env} (hd : e.deadline = false) {s : Svc} (
     | cont p =>
       cases p with
       | some i => exact waitGen_noDeadline hd (PendAt_of_NoPend h _)
-      | none => exact waitGen_noDeadline hd (PendAt_create e h k)
+      | none =>
+        have hk : s.keys.contains k = true := by
+          cases hkk : s.keys.contains k with
+          | true => rfl
+          | false => rw [hkk] at h0; exact absurd rfl h0
+        show NoPend (createAndWait e s k).1
+        rw [createAndWait_eq e s k hk]
+        exact waitGen_noDeadline hd (PendAt_create e h k)
 
 theorem recreateCryptoKey_noDeadline (f : Flags) {e : Env} (hd : e.deadline = false) {s : Svc} (h : NoPend s) (k : String) :
     NoPend (recreateCryptoKey f e s k).1 := by
